@@ -109,6 +109,46 @@ class _Sub:
         self.blocks = [b if i in blocks else {"cl": True, "st": [], "t": {"t": "unreachable"}} for i, b in enumerate(fn.blocks)]
 
 
+TAG_CRATES = ("warp_core", "echo_wasm_abi", "echo_scene_codec", "echo_edict_canonical", "echo_cas", "echo_graph", "echo_runtime_schema")
+TAG_TYS = ("u8", "u16")
+
+
+def closed_tag_dispatch(prog, rep):
+    """R6.  The decoders' tag readers (optional-presence bytes, enum codes, record kinds, CBOR majors) are `match tag {
+    k1 => .., k2 => .., other => Err(..) }`.  Frozen on the pinned tree: the functions that test a u8/u16 value against
+    constants and whose all-default path reaches no success value.  Each must stay that way: a default arm that decodes
+    (`0 => None, _ => Some(read())`) accepts 255 spellings of one value — the encoding is no longer bijective."""
+    cur = {}
+    import os
+    for f in (prog.fns.values() if os.environ.get("ECHO_VERIF_REBASELINE") == "1" else ()):
+        if f.crate not in TAG_CRATES or f.is_closure():
+            continue
+        sp = f.rec["span"]["f"]
+        if "::tests::" in f.id or sp.endswith("_tests.rs") or "/tests/" in sp or "_serde::" in f.id:
+            continue
+        raw = f.rec.get("_raw")
+        if raw is not None and '"t":"sw"' not in raw:
+            continue
+        r = open_tag_dispatches(f, TAG_TYS)
+        if r is None:
+            continue
+        cur[f.id] = r
+    closed_now = sorted(k for k, v in cur.items() if not v)
+    frozen = baseline("C12.closed-tag-dispatch", closed_now)
+    rep.check(len(frozen) >= 40, "C12.R6", "closed-dispatch:floor", "%d closed tag dispatchers confirmed" % len(frozen), "only %d closed tag dispatchers in the frozen list" % len(frozen), site="workspace")
+    for fid in frozen:
+        f = prog.fn_opt(fid)
+        if f is None:
+            rep.bad("C12.R6", "closed-dispatch:%s" % fid.replace("warp_core::", ""), "tag-dispatching decoder function %s no longer exists: its closed dispatch cannot be re-established" % fid, site=fid)
+            continue
+        r = open_tag_dispatches(f, TAG_TYS)
+        if r is None:
+            rep.bad("C12.R6", "closed-dispatch:%s" % fid.replace("warp_core::", ""), "%s no longer tests its tag against the listed constants (dispatch moved or removed): unknown tags are not provably rejected" % f.name, site=f.loc())
+        else:
+            rep.check(not r, "C12.R6", "closed-dispatch:%s" % fid.replace("warp_core::", ""), "unlisted tag values reach only errors",
+                      "an unlisted tag value is accepted: values %s explicit, default path reaches a success value via %s" % ((r[0][1] if r else ""), f.describe_path(r[0][2]) if r else ""), site=f.loc())
+
+
 def run(ctx):
     rep = ctx.report
     prog = ctx.prog("trusted")
@@ -117,7 +157,9 @@ def run(ctx):
     rep.rule("C12.R3", "A10 minimal-form thresholds agree between CBOR writer and reader")
     rep.rule("C12.R4", "A2/A1 canonicality gates; finish() before Ok")
     rep.rule("C12.R5", "A1/A9 encoder determinism premises")
+    rep.rule("C12.R6", "closed tag dispatch: every byte-tag test of the decoders leads, for unlisted values, only to a typed error (no normalisation of unknown tags)")
 
+    closed_tag_dispatch(prog, rep)
     recs, tags = discover(prog)
     rep.check(len(recs) >= 25 and len(tags) >= 12, "C12.R1", "pairs:discovered", "%d record codec pairs, %d tag pairs" % (len(recs), len(tags)),
               "only %d record pairs / %d tag pairs discovered" % (len(recs), len(tags)), site="workspace")
